@@ -8,7 +8,7 @@ from metasequoia_sql import core
 from metasequoia_sql.analyzer import toolkit
 from metasequoia_sql.analyzer.data_linage.table_lineage import SelectTableLineage, InsertTableLineage
 from metasequoia_sql.analyzer.data_linage.table_lineage_storage import TableLineageStorage
-from metasequoia_sql.analyzer.node import StandardColumn, QuoteColumn, SourceColumn
+from metasequoia_sql.analyzer.node import StandardColumn, StandardTable, QuoteColumn, SourceColumn
 from metasequoia_sql.analyzer.tool import CreateTableStatementGetter
 from metasequoia_sql.errors import AnalyzerError
 
@@ -139,7 +139,8 @@ class TableLineageAnalyzer:
                                            column_name=column.column_name)
                               for column in insert_statement.columns]
         else:
-            full_table_name = insert_statement.table_name.source()
+            full_table_name = StandardTable(schema_name=insert_statement.table_name.schema_name,
+                                            table_name=insert_statement.table_name.table_name).source()
             create_table_statement = self._create_table_statement_getter.get_statement(full_table_name)
             insert_columns = [SourceColumn(schema_name=insert_statement.table_name.schema_name,
                                            table_name=insert_statement.table_name.table_name,
